@@ -83,3 +83,123 @@ Print Assumptions C17_stl_block.
 Print Assumptions C17_vtt.
 Print Assumptions C17_ssa.
 Print Assumptions C17_ssa_schedule_independent.
+
+(* ---- the buffer limit of bufio.Scanner (audit follow-up; Kit/ScanLim.v, Proofs/ScanLimProofs.v, Proofs/ScanLimReaders.v) ----
+   newScanner never calls scanner.Buffer: the limit is bufio.MaxScanTokenSize = 65536 bytes of UNCONSUMED data.  [scan_lim max
+   data counts] is the scanner with that limit ([max] a parameter; [max_scan_token] the real value): tokens delivered and
+   whether scanning stopped with ErrTooLong.  The theorems above ([scan], no limit) hold exactly under the bound below,
+   for every schedule. *)
+From Coq Require Import Lia.
+From Astisub Require Import Kit.ScanLim Proofs.ScanLimProofs Proofs.ScanLimReaders.
+
+(* (a) every line at least two bytes shorter than the buffer (text <= 65534 bytes): the limit never matters *)
+Theorem C17_scanner_within_limit : forall max data counts, (0 < max)%nat ->
+  Forall (fun l => (length l + 2 <= max)%nat) (lines data) -> scan_lim max data counts = (lines data, false).
+Proof. exact scan_lim_short_lines. Qed.
+(* ... the exact condition: every terminated line's look-ahead (line + LF; line + CR + the byte after it) within the
+   buffer, the last unterminated line (or one ending in a final CR) strictly shorter than the buffer *)
+Theorem C17_scanner_fits : forall max data counts, (0 < max)%nat -> lim_fits max data ->
+  scan_lim max data counts = (lines data, false).
+Proof. exact scan_lim_fits. Qed.
+(* the readers within the bound: the one-shot readers, for every schedule *)
+Theorem C17_readers_within_limit : forall max data counts, (0 < max)%nat ->
+  Forall (fun l => (length l + 2 <= max)%nat) (lines data) ->
+  read_srt_lines (fst (scan_lim max data counts)) (snd (scan_lim max data counts)) = read_srt data /\
+  read_vtt_lines (fst (scan_lim max data counts)) (snd (scan_lim max data counts)) = read_vtt data /\
+  read_ssa_lines (fst (scan_lim max data counts)) (snd (scan_lim max data counts)) = read_ssa data.
+Proof. exact read_lim_within. Qed.
+(* for EVERY input and schedule: what is delivered is a prefix of [lines data], all of it when no error is raised *)
+Theorem C17_scanner_limit_sound : forall max data counts,
+  (snd (scan_lim max data counts) = false -> fst (scan_lim max data counts) = lines data) /\
+  (exists j, fst (scan_lim max data counts) = firstn j (lines data)).
+Proof. exact scan_lim_sound. Qed.
+
+(* (c) the boundary, per kind of line end, for any buffer size ([tok] a line without CR/LF) *)
+Theorem C17_boundary_lf : forall max tok rest counts, (0 < max)%nat ->
+  forallb (fun c => negb (is_brk c)) tok = true -> lim_fits max rest ->
+  scan_lim max (tok ++ LF :: rest) counts = if Nat.leb (length tok + 1) max then (tok :: lines rest, false) else ([], true).
+Proof. exact boundary_lf. Qed.
+Theorem C17_boundary_crlf : forall max tok rest counts, (0 < max)%nat ->
+  forallb (fun c => negb (is_brk c)) tok = true -> lim_fits max rest ->
+  scan_lim max (tok ++ CR :: LF :: rest) counts = if Nat.leb (length tok + 2) max then (tok :: lines rest, false) else ([], true).
+Proof. exact boundary_crlf. Qed.
+(* a lone CR followed by text: one byte of look-ahead beyond the terminator (the split function waits to see whether a
+   LF follows - the behaviour introduced by the fix "line scanner waits for more data when the buffer ends in a
+   carriage return") *)
+Theorem C17_boundary_cr : forall max tok c rest counts, (0 < max)%nat ->
+  forallb (fun c => negb (is_brk c)) tok = true -> c <> LF -> lim_fits max (c :: rest) ->
+  scan_lim max (tok ++ CR :: c :: rest) counts = if Nat.leb (length tok + 2) max then (tok :: lines (c :: rest), false) else ([], true).
+Proof. exact boundary_cr. Qed.
+(* the last line: schedule-independent below and above the buffer size ... *)
+Theorem C17_boundary_last : forall max tok counts, tok <> [] -> forallb (fun c => negb (is_brk c)) tok = true ->
+  ((length tok < max)%nat -> scan_lim max tok counts = ([tok], false)) /\
+  ((max < length tok)%nat -> scan_lim max tok counts = ([], true)).
+Proof. exact boundary_last. Qed.
+Theorem C17_boundary_last_cr : forall max tok counts, forallb (fun c => negb (is_brk c)) tok = true ->
+  ((length tok + 1 < max)%nat -> scan_lim max (tok ++ [CR]) counts = ([tok], false)) /\
+  ((max < length tok + 1)%nat -> scan_lim max (tok ++ [CR]) counts = ([], true)).
+Proof. exact boundary_last_cr. Qed.
+(* ... and schedule-DEPENDENT exactly at it: a last line that fills the buffer passes iff the stream reports end-of-file
+   together with the last bytes; a stream that reports it by a separate Read (bytes.Reader, strings.Reader, os.File)
+   gets ErrTooLong.  This is the only place where the result depends on the delivery. *)
+Theorem C17_boundary_last_exact : forall max tok, tok <> [] -> forallb (fun c => negb (is_brk c)) tok = true -> length tok = max ->
+  scan_lim max tok [] = ([tok], false) /\ scan_lim max tok [max] = ([], true) /\ scan_lim max tok [max; 0%nat] = ([], true).
+Proof. exact boundary_last_exact. Qed.
+Theorem C17_boundary_last_cr_exact : forall max tok, forallb (fun c => negb (is_brk c)) tok = true -> (length tok + 1)%nat = max ->
+  scan_lim max (tok ++ [CR]) [] = ([tok], false) /\ scan_lim max (tok ++ [CR]) [max] = ([], true).
+Proof. exact boundary_last_cr_exact. Qed.
+
+(* the real constant.  Observed on the library (newScanner through the hook VerifScanTokens, go1.23.5; lines of 'a' of
+   65533..65537 bytes, alone and after a first line "ab"; streams: bytes.Reader, a reader returning io.EOF with the last
+   bytes, readers delivering 1000 and 7 bytes per Read):
+     LF        : 65535 ok, 65536 ErrTooLong            (all streams)
+     CR LF     : 65534 ok, 65535 ErrTooLong            (all streams)
+     CR "x"    : 65534 ok (2 tokens), 65535 ErrTooLong (all streams)
+     CR at EOF : 65534 ok, 65536 ErrTooLong (all streams); 65535: ok only when EOF comes with the last bytes
+     none      : 65535 ok, 65537 ErrTooLong (all streams); 65536: ok only when EOF comes with the last bytes
+   and the tokens before the over-long line are delivered.  The same table, in the model: *)
+Example C17_real_boundary_lf : forall counts,
+  scan_lim max_scan_token (a_line 65535 ++ [LF]) counts = ([a_line 65535], false) /\
+  scan_lim max_scan_token (a_line 65536 ++ [LF]) counts = ([], true).
+Proof. exact real_boundary_lf. Qed.
+Example C17_real_boundary_crlf : forall counts,
+  scan_lim max_scan_token (a_line 65534 ++ [CR; LF]) counts = ([a_line 65534], false) /\
+  scan_lim max_scan_token (a_line 65535 ++ [CR; LF]) counts = ([], true).
+Proof. exact real_boundary_crlf. Qed.
+Example C17_real_boundary_cr : forall counts,
+  scan_lim max_scan_token (a_line 65534 ++ [CR; 120%N]) counts = ([a_line 65534; [120%N]], false) /\
+  scan_lim max_scan_token (a_line 65535 ++ [CR; 120%N]) counts = ([], true).
+Proof. exact real_boundary_cr. Qed.
+Example C17_real_boundary_last : forall counts,
+  scan_lim max_scan_token (a_line 65535) counts = ([a_line 65535], false) /\
+  scan_lim max_scan_token (a_line 65537) counts = ([], true) /\
+  scan_lim max_scan_token (a_line 65536) [] = ([a_line 65536], false) /\
+  scan_lim max_scan_token (a_line 65536) [max_scan_token] = ([], true).
+Proof. exact real_boundary_last. Qed.
+Example C17_real_boundary_last_cr : forall counts,
+  scan_lim max_scan_token (a_line 65534 ++ [CR]) counts = ([a_line 65534], false) /\
+  scan_lim max_scan_token (a_line 65536 ++ [CR]) counts = ([], true) /\
+  scan_lim max_scan_token (a_line 65535 ++ [CR]) [] = ([a_line 65535], false) /\
+  scan_lim max_scan_token (a_line 65535 ++ [CR]) [max_scan_token] = ([], true).
+Proof. exact real_boundary_last_cr. Qed.
+Example C17_real_prefix_delivered : forall counts,
+  scan_lim max_scan_token ([97; 98; 10]%N ++ a_line 65536 ++ [LF]) counts = ([[97; 98]%N], true).
+Proof. exact real_prefix_delivered. Qed.
+(* small buffer, every branch by computation: CR LF cut by the buffer end, a line that fits exactly, one that does not *)
+Example C17_lim_small :
+  scan_lim 4 [97; 13; 10; 98; 99; 100; 10; 101]%N [2%nat; 0%nat; 1%nat] = ([[97]; [98; 99; 100]; [101]]%N, false) /\
+  scan_lim 4 [97; 10; 98; 99; 100; 101; 10]%N [3%nat] = ([[97]%N], true) /\
+  scan_lim 4 [97; 98; 99; 13; 100]%N [] = ([], true).
+Proof. repeat split; reflexivity. Qed.
+
+Print Assumptions C17_scanner_within_limit.
+Print Assumptions C17_scanner_fits.
+Print Assumptions C17_readers_within_limit.
+Print Assumptions C17_scanner_limit_sound.
+Print Assumptions C17_boundary_lf.
+Print Assumptions C17_boundary_crlf.
+Print Assumptions C17_boundary_cr.
+Print Assumptions C17_boundary_last.
+Print Assumptions C17_boundary_last_cr.
+Print Assumptions C17_boundary_last_exact.
+Print Assumptions C17_boundary_last_cr_exact.
